@@ -145,6 +145,51 @@ func runSyntactic(cfg *PropConfig, run *PropRun) (int, []Failure) {
 				sort.Strings(bad)
 				fails = append(fails, Failure{Family: "syntactic/" + s, Err: fmt.Sprintf("field %s accessed outside the allowed functions: %s", target, strings.Join(bad, ", "))})
 			}
+		case strings.HasPrefix(s, "atomic-only:"):
+			// atomic-only:<func key>:<struct field> : inside the function every access to the named field of its
+			// struct goes through package sync/atomic (the field address is only ever an argument of an atomic call):
+			// no plain load or store that could race with a concurrent atomic update
+			body := strings.TrimPrefix(s, "atomic-only:")
+			k := strings.LastIndex(body, ":")
+			fkey, field := expandKey(body[:k]), body[k+1:]
+			fn := run.Eng.findFunc(fkey)
+			if fn == nil || len(fn.Blocks) == 0 {
+				fails = append(fails, Failure{Family: "syntactic/" + s, Err: "contract unbound: " + fkey + " not found"})
+				continue
+			}
+			found, bad := false, ""
+			for _, b := range fn.Blocks {
+				for _, ins := range b.Instrs {
+					fa, ok := ins.(*ssa.FieldAddr)
+					if !ok {
+						if f2, ok2 := ins.(*ssa.Field); ok2 {
+							if st, ok3 := f2.X.Type().Underlying().(*types.Struct); ok3 && st.Field(f2.Field).Name() == field {
+								found, bad = true, "plain read of the field at "+run.Eng.prog.Fset.Position(f2.Pos()).String()
+							}
+						}
+						continue
+					}
+					st, ok := derefT(fa.X.Type()).Underlying().(*types.Struct)
+					if !ok || st.Field(fa.Field).Name() != field {
+						continue
+					}
+					found = true
+					for _, ref := range *fa.Referrers() {
+						call, isCall := ref.(*ssa.Call)
+						if _, isDbg := ref.(*ssa.DebugRef); isDbg {
+							continue
+						}
+						if !isCall || call.Common().StaticCallee() == nil || call.Common().StaticCallee().Pkg == nil || call.Common().StaticCallee().Pkg.Pkg.Path() != "sync/atomic" {
+							bad = "non-atomic use of the field at " + run.Eng.prog.Fset.Position(ref.Pos()).String()
+						}
+					}
+				}
+			}
+			if !found {
+				fails = append(fails, Failure{Family: "syntactic/" + s, Err: "contract unbound: field " + field + " is not accessed in " + fkey})
+			} else if bad != "" {
+				fails = append(fails, Failure{Family: "syntactic/" + s, Err: bad})
+			}
 		case strings.HasPrefix(s, "mutex-guarded:"):
 			// mutex-guarded:<func key>:<field> : the body starts with recv.<field>.Lock(); defer recv.<field>.Unlock()
 			// and contains no other Lock/Unlock of that mutex
